@@ -10,13 +10,16 @@ from ..generic import stale_alias, guarded_refill_needs_empty
 from ..pathcond import implied, rimplied
 
 MANIFEST = {
-    'technique': 'symbolic linear forms (split closure, scaling), per-path accumulator accounting in the indexer mix_from loops, alias-guard and stale-alias dataflow over the CFG, index-identity rule for copy-with-removal',
-    'text': 'Decides for every input: split_to stores mol*split and an expression that normalises to mol-mol*split (same-package and CAS-remapped '
-            'stores); every scaling operator multiplies the whole molar data exactly once (on a copy for the binary forms); in both indexer mix_from '
-            'implementations each inlet is appended exactly once to exactly one accumulator family chosen by the package test, as flow data, and each '
-            'accumulator is consumed once; containers are cleared only under an identity test against the operands; no local alias of phase/data '
-            'containers is used after a call that re-binds them; copy-with-removal zeroes the same index it copied; separate_out subtracts exactly '
-            'the operand. Numerical equality and run-time CAS tables are not decided.',
+    'technique': 'symbolic linear forms (split closure, scaling), per-path accumulator accounting in the indexer mix_from loops, alias-guard and stale-alias dataflow '
+            'over the CFG, index-identity rule for copy-with-removal; must-follow rule on every re-binding of the flow container (per-phase views dropped or '
+            're-attached)',
+    'text': 'Decides for every input: split_to stores mol*split and an expression that normalises to mol-mol*split (same-package and CAS-remapped stores); every '
+            'scaling operator multiplies the whole molar data exactly once (on a copy for the binary forms); in both indexer mix_from implementations each inlet is '
+            'appended exactly once to exactly one accumulator family chosen by the package test, as flow data, and each accumulator is consumed once; containers '
+            'are cleared only under an identity test against the operands; no local alias of phase/data containers is used after a call that re-binds them; '
+            'copy-with-removal zeroes the same index it copied; separate_out subtracts exactly the operand (both indexer classes); whenever a stream re-binds its '
+            'flow container the remembered per-phase sub-streams, through which flow is moved with copy_flow/split_to, are dropped or re-attached. Numerical '
+            'equality and run-time CAS tables are not decided.',
 }
 
 ST = 'thermosteam/_stream.py'
@@ -61,6 +64,7 @@ def run(ctx):
         'D5 copy-with-removal zeroes exactly the index it copied',
         'D6 separate_out subtracts exactly the operand data through one index_overlap result',
         'D7 re-indexing refills (reset_chemicals) start from an empty container; the index_overlap memo is keyed by the ordered CAS sequence its value depends on',
+        'D8 whenever a stream re-binds its flow container the remembered per-phase sub-streams are dropped or re-attached (otherwise flow moved through ms[phase] is duplicated or lost)',
     ]
     ctx.not_decided = ['numerical equality for all flows', 'correctness of run-time CAS remapping tables']
     d1 = ctx.rule('D1', 'split closure and scaling (D-lin)', floor=10)
@@ -89,6 +93,11 @@ def run(ctx):
         if f.module.rel == IX:
             guarded_refill_needs_empty(prog, f, d7)
     overlap_key_rule(ctx, d7)
+    # flows are moved between streams through the per-phase sub-streams of multi-phase streams (copy_flow of ms[phase],
+    # MultiStream.split_to into multi-phase outlets): those views must stay attached to the rows they advertise
+    d8 = ctx.rule('D8', 'per-phase views stay attached to the flow rows when the flow container is re-bound', floor=5)
+    from .C12 import dependents
+    dependents(ctx, d8)
 
 
 # ----------------------------------------------------------------------------
